@@ -3,6 +3,7 @@
 package registry
 
 import (
+	"bytes"
 	"encoding/hex"
 	"fmt"
 	"reflect"
@@ -43,6 +44,21 @@ func statePayloads(name string) [][]byte {
 	}
 	n := 0
 	enumlib.Try(func() { n = len(d.Pack()) })
+	if n >= 5 && n <= 9 {
+		// longer fixed-length types: the candidate payloads plus every payload whose octets are drawn
+		// from a two-value set (so that neighbouring fields differ), for three such sets
+		out := candidates(n)
+		for _, pair := range [][2]byte{{0, 1}, {1, 2}, {3, 0x19}} {
+			for m := 0; m < 1<<uint(n-1); m++ {
+				p := make([]byte, n)
+				for i := 1; i < n; i++ {
+					p[i] = pair[(m>>uint(i-1))&1]
+				}
+				out = append(out, p)
+			}
+		}
+		return out
+	}
 	if n < 2 || n > 4 {
 		return candidates(n)
 	}
@@ -126,8 +142,17 @@ func (c *ctx) stateSpace() {
 				if last != cur {
 					nd.snap.Restore()
 				}
+				orig := append([]byte(nil), p...)
 				r := stateResult(n, p)
 				transitions++
+				if !bytes.Equal(orig, p) {
+					if !reported["payload:"+n] {
+						reported["payload:"+n] = true
+						c.r.ViolationWithTest("C19:payload-modified:"+n, fmt.Sprintf("Produce(%q) + Unpack(% x) rewrote the caller's payload to % x: a second instance decoding the same telegram (another consumer, another goroutine) yields a different value", n, orig, p),
+							caseInput{Op: "payload", Name: n, Payload: hex.EncodeToString(orig)}, fmt.Sprintf("func TestC19PayloadUntouched(t *testing.T) {\n\tp := %s\n\tq := append([]byte(nil), p...)\n\td, _ := dpt.Produce(%q)\n\td.Unpack(p)\n\tif !bytes.Equal(p, q) {\n\t\tt.Fatalf(\"payload %% x became %% x\", q, p)\n\t}\n}", goBytes(orig), n))
+					}
+					copy(p, orig)
+				}
 				if qi == 0 {
 					base[n][i] = r
 				} else {
